@@ -26,6 +26,7 @@ namespace SA.DnsHandshake
 theorem gen_halving : Halving Cfg.gen := ⟨by decide, by decide⟩
 theorem gen_halves : Cfg.gen.fragHalvesEveryRound = true := by decide
 theorem gen_raw : Cfg.gen.rawOnSuccess = true := by decide
+theorem gen_assigned : Cfg.gen.downAlwaysAssigned = true := by decide
 theorem gen_mismatch : Cfg.gen.downMismatchIsError = true := by decide
 
 /-- the two repairs that are not part of the decision logic are present in the source: the fragment
@@ -206,7 +207,7 @@ structure Justified (cfg : Cfg) (O : Oracle) (p : Params) : Prop where
 /-- **success_sound (partial)**: for every configuration with the repaired selection logic, every oracle
     and domain: if Handshake reports success with parameters p, every probe behind p passed. -/
 theorem C11_success_sound_partial (cfg : Cfg) (hh : cfg.fragHalvesEveryRound = true) (hr : cfg.rawOnSuccess = true)
-    (hm : cfg.downMismatchIsError = true) (hhd : cfg.fragHeader ≤ cfg.fragSmall)
+    (ha : cfg.downAlwaysAssigned = true) (hm : cfg.downMismatchIsError = true) (hhd : cfg.fragHeader ≤ cfg.fragSmall)
     (O : Oracle) (dom : Nat) (p : Params) (tr : List Probe)
     (h : handshake cfg O dom = (.ok p, tr)) : Justified cfg O p := by
   unfold handshake at h
@@ -259,7 +260,7 @@ theorem C11_success_sound_partial (cfg : Cfg) (hh : cfg.fragHalvesEveryRound = t
                   have := setDownPhase_sound O cfg _ _ hdn
                   have hd : d0 ≠ .b32 := by rw [← this.1]; exact hdn
                   refine ⟨?_, ?_⟩
-                  · rw [this.1]; exact downDetect_sound O cfg hr hm _ d0 hd0 hq' hd
+                  · rw [this.1]; exact downDetect_sound O cfg hr ha hm _ d0 hd0 hq' hd
                   · rw [this.1]; exact this.2
                 · intro _
                   refine ⟨?_, switchPhase_set O cfg _ _ hsw, by simp only; omega⟩
@@ -282,14 +283,14 @@ theorem C11_success_sound_partial (cfg : Cfg) (hh : cfg.fragHalvesEveryRound = t
                   have := setDownPhase_sound O cfg _ _ hdn
                   have hd : d0 ≠ .b32 := by rw [← this.1]; exact hdn
                   refine ⟨?_, ?_⟩
-                  · rw [this.1]; exact downDetect_sound O cfg hr hm _ d0 hd0 hq' hd
+                  · rw [this.1]; exact downDetect_sound O cfg hr ha hm _ d0 hd0 hq' hd
                   · rw [this.1]; exact this.2
                 · intro hne; exact absurd rfl hne
 
 /-- the statement for the configuration in the source today -/
 theorem C11_success_sound_gen (O : Oracle) (dom : Nat) (p : Params) (tr : List Probe)
     (h : handshake Cfg.gen O dom = (.ok p, tr)) : Justified Cfg.gen O p :=
-  C11_success_sound_partial Cfg.gen gen_halves gen_raw gen_mismatch (by decide) O dom p tr h
+  C11_success_sound_partial Cfg.gen gen_halves gen_raw gen_assigned gen_mismatch (by decide) O dom p tr h
 
 /-- What `success_sound` would need in full strength (kept visible; NOT proved, and false for a general
     oracle): that the probes which passed imply that every payload of every size up to the negotiated
